@@ -190,9 +190,9 @@ def fires : FOp → Fault → Bool
     * failed close: a deferred write error — the data of the last `write`
       on the descriptor did not reach the file. -/
 def applyFailed (fs : Fs) (kept : Nat) : FOp → Fault → Fs
-  | .write r t d, .short => (fs.appendDisk (.file r t .obs) (d.take (d.length / 2))).logFlushed t (d.take (d.length / 2))
-  | .fwrite p d, .short => fs.appendPend p (d.take (d.length / 2))
-  | .fputs p d, .short => fs.appendPend p (d.take (d.length / 2))
+  | .write r t d, .short => apply fs (.write r t (d.take (d.length / 2)))
+  | .fwrite p d, .short => apply fs (.fwrite p (d.take (d.length / 2)))
+  | .fputs p d, .short => apply fs (.fputs p (d.take (d.length / 2)))
   | .fcloseW p, _ =>
     match fs.get p with
     | some (.file disk pend) => fs.set p (.file (disk ++ pend.take kept) [])
@@ -457,7 +457,10 @@ def cont (ser : Meta → List Nat) (p : Prog) (c : Call) (f : Fault) (rest : Lis
     match c.op, f with
     | .write r t d, .short => .go (⟨.writeStream, 0, .write r t (d.drop (d.length / 2))⟩ :: rest)
     | _, _ => .die []
-  | .storeFputs => .die (rest.take 1)                       -- the fclose that follows
+  | .storeFputs =>                                          -- the fclose that follows, then die
+    match c.op with
+    | .fputs p _ => .die [⟨.storeFclose, 0, .fcloseW p⟩]
+    | _ => .die []
   | .closeStream =>
     -- the relocation now sees a stream.obs without its last write
     match c.op with
